@@ -135,6 +135,29 @@ pub fn splitmix(mut x: u64) -> u64 {
 }
 
 /// Deterministic seeded selection: true for roughly `num`/`den` of the indices
+/// Samples are there to be read: long byte payloads (arrays of numbers) and long strings inside one are cut to
+/// their first elements plus their length, so an evidence file stays a few kilobytes whatever the cases carried.
+pub fn compact_sample(v: Value) -> Value {
+    match v {
+        Value::Array(a) if a.len() > 64 && a.iter().all(|x| x.is_number()) => {
+            serde_json::json!({"elided_number_array_len": a.len(), "first": a.into_iter().take(16).collect::<Vec<_>>()})
+        },
+        Value::Array(a) if a.len() > 200 => {
+            let n = a.len();
+            let mut head: Vec<Value> = a.into_iter().take(40).map(compact_sample).collect();
+            head.push(serde_json::json!({"elided_elements": n - 40}));
+            Value::Array(head)
+        },
+        Value::Array(a) => Value::Array(a.into_iter().map(compact_sample).collect()),
+        Value::Object(o) => Value::Object(o.into_iter().map(|(k, x)| (k, compact_sample(x))).collect()),
+        Value::String(t) if t.len() > 600 => {
+            let head: String = t.chars().take(300).collect();
+            Value::String(format!("{}... ({} bytes in all)", head, t.len()))
+        },
+        other => other,
+    }
+}
+
 pub fn sampled(seed: u64, salt: u64, index: u64, num: u64, den: u64) -> bool {
     splitmix(seed ^ splitmix(salt) ^ splitmix(index.wrapping_mul(0x2545F4914F6CDD1D))) % den < num
 }
@@ -259,7 +282,7 @@ impl Ctx {
         if t <= 2 || (t.is_power_of_two() && t.trailing_zeros() % 2 == 0) {
             let mut g = self.samples.lock().unwrap();
             if g.len() < 14 {
-                g.push(f());
+                g.push(compact_sample(f()));
             }
         }
     }
